@@ -40,7 +40,7 @@ PROFILES = {
                     p_position=0.35, p_single_lit_string=0.3, nrules=(3, 7)),
     "memo": dict(p_shared_prefix=0.35, p_memo=0.5, p_lookahead=0.2, nrules=(3, 7), p_check=0.3, p_ccheck=0.2, w_extern=4, w_char=2),
     "memofail": dict(p_shared_prefix=0.5, w_alias=3, p_memo=1.0, p_probe=0.7, p_lookahead=0.15, w_extern=1, nrules=(3, 6), p_check=0.35, p_ccheck=0.2, w_char=2),
-    "dupfields": dict(p_nested_field_closure=0.4, nrules=(2, 4), depth=4, small_fieldpool=3, p_multitype=0.85, w_struct=8, w_string=3, w_unit=0, w_alias=0,
+    "dupfields": dict(p_rebind_shape=0.2, p_nested_field_closure=0.4, nrules=(2, 4), depth=4, small_fieldpool=3, p_multitype=0.85, w_struct=8, w_string=3, w_unit=0, w_alias=0,
                       w_enum=0, w_char=1, p_include=0.15, p_lookahead=0.03, p_noskip=0.1, dense_fields=True),
     "leftrec": dict(leftrec=1.0, p_memo=0.1, p_position=0.3, p_check=0.4, p_probe=0.5),
     "ws": dict(p_noskip=0.5, p_user_ws=0.45, p_include=0.25, w_string=3, p_position=0.3, p_ws_lit=0.15),
@@ -422,7 +422,9 @@ class Gen:
         self.cur = nm
         self.cur_i = i
         self.used_fields = []
-        if kind in ("struct",) and i > 0 and self.coin(0.12):
+        if kind in ("struct",) and self.coin(p.get("p_rebind_shape", 0.0)):
+            body = self.rebind_body()
+        elif kind in ("struct",) and i > 0 and self.coin(0.12):
             body = Cho([Seq([self.ref("named", False) if self.coin(0.6) else self.lit_nonempty()])])  # a single inline element
         elif kind in ("struct",):
             body = self.cho(p["depth"] + (3 if self.coin(0.04) else 0), "named", consumed=False)
@@ -612,6 +614,36 @@ class Gen:
             return self.lit()
         return Eoi()
 
+    def rebind_body(self):
+        """fields bound again inside nested groups, in an order that differs from the order of their first appearance
+        in the rule:   a:T ( b:T ( a:T b:T ) )     k:T '=' v:T | '>' v:T ( k:T v:T ) ';'"""
+        ts = [t for t in self.names[self.cur_i + 1:] if self.kinds.get(t) in ("char", "string")] + ["char"]
+        t = self.r.choice(ts)
+        a, b = self.r.sample(self.fieldpool, 2)
+        for f in (a, b):
+            if f not in self.used_fields:
+                self.used_fields.append(f)
+
+        def wrap(seq):
+            y = self.r.random()
+            inner = Cho([seq])
+            if y < 0.5:
+                return Grp(inner)
+            if y < 0.75:
+                return Opt(inner)
+            return Clo(Cho([Seq([Lit(",")] + seq.parts)]), self.coin(0.3))
+        A, B = (lambda: Ref(t, a)), (lambda: Ref(t, b))
+        x = self.r.random()
+        if x < 0.4:
+            body = Cho([Seq([A(), wrap(Seq([B(), wrap(Seq([A(), B()]))]))])])
+        elif x < 0.75:
+            body = Cho([Seq([A(), Lit("="), B()]), Seq([Lit(">"), B(), wrap(Seq([A(), B()])), Lit(";")])])
+        else:
+            body = Cho([Seq([A(), B(), wrap(Seq([B(), wrap(Seq([A(), B(), A()]))]))])])
+        if self.coin(0.3):
+            body.alts[0].parts.append(self.lit())
+        return body
+
     def single_item(self, mode, consumed, nonnull=False):
         """one literal / range / reference to a rule that always consumes (the body of the most common brackets)"""
         y = self.r.random()
@@ -755,7 +787,7 @@ class Gen:
     def leftrec_cluster(self):
         """a left-recursive cluster appended to the grammar; returns entry rule + rules"""
         r = self.r
-        style = r.randint(0, 6)
+        style = r.choice([0, 1, 2, 2, 2, 3, 4, 5, 6, 6])  # nested / re-entered left recursion is where most of the subtlety is
         ops = r.sample(["+", "-", "*", "x", "ab", "=>", ","], 3)
         d_pos = (lambda: ["position"] if self.coin(self.p["p_position"]) else [])
         atom_body = r.choice([
@@ -790,7 +822,7 @@ class Gen:
             # tried before the recursive one) and shuffled alternative order
             r_alts = [Seq([Ref("LAdd", "@")]), Seq([Ref("LTerm", "@")])]
             t_alts = [Seq([Ref("LMul", "@")]), Seq([Ref("LFactor", "@")])]
-            if self.coin(0.5):
+            if self.coin(0.7):
                 rules.append(Rule("LNeg", Cho([Seq([Lit(ops[2]), Ref("LAtom", "value")])]), d_pos()))
                 t_alts.insert(0, Seq([Ref("LNeg", "@")]))
             if self.coin(0.25):
